@@ -250,3 +250,54 @@ fn h_w_open_close() {
     w_open_close::simultaneous_close_releases_both_after_time_wait();
     w_open_close::data_in_both_directions_survives_the_closes();
 }
+
+// ---------------------------------------------------------------------------
+// BOUNDED scenario for the clauses of C01 / C03 / C12 that no per-call contract expresses (two-endpoint composition,
+// bounded liveness, release of both ends): see units/tcb/w/two_endpoints.rs.  kind=scenario: run as a plain test on the
+// real code in every check, listed under `bounded` in the evidence, never counted as proved.
+// ---------------------------------------------------------------------------
+#[cfg(vx_replay)]
+#[path = "/verif/units/tcb/w/two_endpoints.rs"]
+mod w_two_endpoints;
+
+//# id=scenario.two_endpoints_over_a_faulty_network props=C01,C03,C12,C02 kind=scenario bound=300_pseudo_random_histories_le_6000_octets_per_direction_60_lossy_steps_40_loss_free_rounds pair=tcb.Tcb.process_segment.appended_bytes_continue_the_stream,tcb.Tcb.segments.safety
+#[cfg(vx_replay)]
+#[test]
+fn h_s_two_endpoints() {
+    w_two_endpoints::run(0..w_two_endpoints::SEEDS);
+}
+
+//# id=witness.text_processed_together_with_the_fin_is_delivered props=C01,C03,C02 kind=witness pair=tcb.Tcb.receive.delivers_everything_buffered
+// B has closed (FIN-WAIT-2); A sends "hello" and closes; A's FIN overtakes the data segment.  When the data arrives, B
+// processes data and FIN in one segment_arrives call and is in TIME-WAIT when the application reads: the text must
+// still be handed out (it was submitted before A's close).
+#[cfg(vx_replay)]
+#[test]
+fn h_w_text_with_overtaking_fin() {
+    let (id_a, a_addr, b_addr) = ids();
+    let id_b = Endpoints::new(id_a.remote, id_a.local);
+    let mut a = Tcb::open(id_a, 100, 1500);
+    let syn = a.segments().remove(0);
+    let mut b = match segment_arrives_listen(syn, b_addr, a_addr, 300, 1500) { Some(ListenResult::Tcb(t)) => t, _ => panic!("no tcb") };
+    let _ = id_b;
+    let synack = b.segments().remove(0);
+    let _ = a.segment_arrives(synack);
+    for s in a.segments() { let _ = b.segment_arrives(s); }
+    assert_eq!((a.status(), b.status()), (State::Established, State::Established));
+    // B closes; A acknowledges the FIN
+    let _ = b.close();
+    for s in b.segments() { let _ = a.segment_arrives(s); }
+    for s in a.segments() { let _ = b.segment_arrives(s); }
+    assert_eq!((a.status(), b.status()), (State::CloseWait, State::FinWait2));
+    // A sends its last data and closes
+    a.send(Message::new("hello"));
+    let mut data = a.segments();
+    let _ = a.close();
+    let mut fin = a.segments();
+    assert!(data.len() == 1 && fin.iter().any(|s| s.header.ctl.fin()));
+    // the FIN overtakes the data
+    for s in fin.drain(..) { let _ = b.segment_arrives(s); }
+    assert_eq!(b.receive().len(), 0);
+    for s in data.drain(..) { let _ = b.segment_arrives(s); }
+    assert_eq!(b.receive().to_vec(), b"hello".to_vec(), "text submitted before the peer's close was not handed to the application (state {:?})", b.status());
+}
